@@ -259,10 +259,54 @@ def self_opposite_pass(ctx):
             return
 
 
+def slice_keep_pass(ctx):
+    """a list-like reference without opposite (plain, containment) is given a slice that *keeps* some of the elements it
+    replaces (they leave and come back in one call); every object is then deleted in turn: nobody holds it afterwards"""
+    from pyecore import ecore as E
+    for k in range(30 if ctx.quick() else 400):
+        rng = common.sub_rng(ctx.seed, 'C07', 'slice-keep', k)
+        A = E.EClass('A')
+        cont = k % 2 == 1
+        A.eStructuralFeatures.extend([E.EAttribute('name', E.EString),
+                                      E.EReference('links', A, upper=-1, unique=False, containment=cont)])
+        holder = A(name='h')
+        pool = [A(name=f'p{i}') for i in range(5)]
+        cur = rng.sample(pool, rng.randint(2, 4))
+        holder.links.extend(cur)
+        a_ = rng.randint(0, len(cur) - 1)
+        b_ = rng.randint(a_ + 1, len(cur))
+        kept = rng.sample(cur[a_:b_], rng.randint(1, b_ - a_))
+        fresh = [p for p in pool if all(p is not c for c in cur)]
+        new = kept + rng.sample(fresh, rng.randint(0, len(fresh)))
+        rng.shuffle(new)
+        try:
+            holder.links[a_:b_] = new
+        except Exception as e:
+            ctx.count('slice-keep/assignment-raised/' + type(e).__name__)
+            continue
+        ctx.evaluations += 1
+        ctx.count('slice-keep/' + ('containment' if cont else 'plain'))
+        ctx.nontriv(('slice-keep', k))
+        victim = rng.choice(kept)
+        try:
+            victim.delete()
+        except Exception as e:
+            ctx.violate({'clause': 'delete-raised', 'trigger': 'none', 'slice_keep': True},
+                        f'delete-raised: {type(e).__name__}: {e}', {'slice_keep': k})
+            return
+        if any(v is victim for v in holder.links) or (cont and victim.eContainer() is not None):
+            ctx.violate({'clause': 'dangling', 'trigger': 'none', 'slice_keep': True},
+                        f'dangling: a {"containment" if cont else "plain"} list [{len(cur)} elements] was given, for the slice [{a_}:{b_}], '
+                        f'{len(new)} elements of which {len(kept)} were in that slice already; one of those was then deleted and is still held',
+                        {'slice_keep': k})
+            return
+
+
 def run(ctx):
     common.use_repo()
     derived_pass(ctx)
     self_opposite_pass(ctx)
+    slice_keep_pass(ctx)
     evolving_pass(ctx)
     shrinking_pass(ctx)
     from . import crossworld
